@@ -496,7 +496,14 @@ func (s Stage[C]) run(t *testing.T, r *Rec) {
 	done := 0
 	t.Run(s.Name, func(t *testing.T) {
 		rapid.Check(t, func(rt *rapid.T) {
-			c := s.Gen(rapidSrc{rt})
+			var c C
+			if g := guard(func() { c = s.Gen(rapidSrc{rt}) }); g.Panic != "" {
+				// a panic inside a generator is a harness defect: report it, never lose it
+				r.mu.Lock()
+				r.violations["harness: generator panic in stage "+s.Name] = &violation{Sig: r.Prop + " harness: generator panic in stage " + s.Name, Stage: s.Name, Detail: clip(g.Panic+"\n"+g.Stack, 4000)}
+				r.mu.Unlock()
+				rt.Fatalf("generator panic: %s", g.Panic)
+			}
 			ctx := s.exec(r, c)
 			done++
 			if ctx.failed && os.Getenv("VERIF_NOSTOP") == "" {
@@ -504,6 +511,7 @@ func (s Stage[C]) run(t *testing.T, r *Rec) {
 			}
 		})
 	})
+	r.count("rapid_invocations:"+s.Name, int64(done))
 	if done > s.N {
 		done = s.N // shrinking re-executes cases; report generated cases only
 	}
